@@ -235,3 +235,90 @@ end XPathV.Theorems.NonVacuity.C07
 section AxiomAudit
 open XPathV.Theorems.NonVacuity.C07
 end AxiomAudit
+
+/-! ## C07 over filtered paths: `C07_main_filtered_paths` -/
+namespace XPathV.Theorems.NonVacuity.C07
+open XPathV XPathV.Model XPathV.Theorems.NonVacuity XPathV.PosSem
+open XPathV.PathSem XPathV.CmpSem XPathV.CmpSem2 XPathV.PredSem2
+
+attribute [local instance] toyAlg
+
+/-- `//a[@x]` -/
+def fAX : Ast := .filter pA (.axis (atA "x") .none)
+/-- `//b[count(*) = 0]` -/
+def fB0 : Ast := .filter (.axis (chE "b") dosRoot)
+  (.oper "=" (.call "count" "" (.acons (.axis (chE "") .none) .anil)) (.num "0"))
+/-- `a[b < c]` -/
+def fLt : Ast := .filter (.axis (chE "a") .none)
+  (.oper "<" (.axis (chE "b") .none) (.axis (chE "c") .none))
+
+theorem dosRoot_frag2 : Frag2 true dosRoot := .axis _ _ (.root _) (by decide)
+theorem fAX_frag2 : Frag2 true fAX :=
+  .filter _ _ (.axis _ _ dosRoot_frag2 (by decide)) (.exist _ (.axis _ _ .none (by decide)))
+theorem fB0_frag2 : Frag2 true fB0 :=
+  .filter _ _ (.axis _ _ dosRoot_frag2 (by decide))
+    (.countR _ _ _ _ (by decide) (.axis _ _ .none (by decide)) (.axis _ _ (by decide) .none))
+theorem fLt_frag2 : Frag2 true fLt :=
+  .filter _ _ (.axis _ _ .none (by decide))
+    (.cmpPath _ _ _ (by decide) (.axis _ _ .none (by decide)) (.axis _ _ .none (by decide)))
+
+/-- `//a[@x] = //b[count(*) = 0] or not(a[b < c])` -/
+def eF1 : Ast := .oper "or" (.oper "=" fAX fB0) (.call "not" "" (.acons fLt .anil))
+
+theorem eF1_parsed : ParsesTo "//a[@x] = //b[count(*) = 0] or not(a[b < c])" eF1 :=
+  ApiSem.parsesTo_eq (by decide +kernel)
+
+theorem eF1_xexp2 : XExp2F d0 (.node 1) Int .bool eF1 :=
+  .or _ _ _ _ (.cmp "=" .eq .set .set _ _ rfl (.path _ fAX_frag2) (.path _ fB0_frag2))
+    (.not .set _ _ (.path _ fLt_frag2))
+
+/-- **`C07_main_filtered_paths`** at `//a[@x] = //b[count(*) = 0] or not(a[b < c])`, context node
+`r` of `d0`, every hypothesis discharged.  The comparison is false (the `a` with an `x` attribute
+has string-value "t", the childless `b` has "u"), `a[b < c]` is empty, so `not(…)` is true: both
+sides give `true` -/
+theorem C07_main_filtered_paths_instance :
+    ∃ (o : BOut), build (fun _ => true) 100 true false eF1 {} {} = .ok o ∧
+    evalP (F := Int) d0 {} o.q (.node 1) = .ok (.bool true) := by
+  obtain ⟨o, hb⟩ : ∃ o, build (fun _ => true) 100 true false eF1 {} {} = .ok o :=
+    exists_ok (by decide +kernel)
+  obtain ⟨t, h1, h2⟩ := Theorems.C07.C07_main_filtered_paths (F := Int) wf_d0 {} rfl hashInj_d0
+    (.node 1) (by decide) (fun _ => true) 100 eF1 eF1_xexp2 {} o hb
+  have e : Spec.evalTop (F := Int) d0 eF1 (.node 1) = .ok (.bool true) := by decide +kernel
+  rw [e] at h2; cases h2
+  exact ⟨o, hb, h1⟩
+
+/-- `//a[not(@x)] = 't'`: the predicate decides — `//a = 't'` is true on `d0` (the first `a`), the
+filtered comparison is false (the `a` without `x` is empty) -/
+def fANX : Ast := .filter pA (.call "not" "" (.acons (.axis (atA "x") .none) .anil))
+def eF2 : Ast := .oper "=" fANX (.str "t")
+
+theorem eF2_parsed : ParsesTo "//a[not(@x)] = 't'" eF2 := ApiSem.parsesTo_eq (by decide +kernel)
+
+theorem fANX_frag2 : Frag2 true fANX :=
+  .filter _ _ (.axis _ _ dosRoot_frag2 (by decide))
+    (.not _ _ (.exist _ (.axis _ _ .none (by decide))))
+
+theorem eF2_xexp2 : XExp2 .bool eF2 := .cmp "=" .eq .set .str _ _ rfl (.path _ fANX_frag2) (.str _)
+
+/-- **`C07_main_filtered_paths_doc_independent`** at `//a[not(@x)] = 't'`: both sides give `false`,
+while the unfiltered `//a = 't'` is `true` -/
+theorem C07_main_filtered_paths_false_instance :
+    ∃ (o : BOut), build (fun _ => true) 100 true false eF2 {} {} = .ok o ∧
+    evalP (F := Int) d0 {} o.q (.node 0) = .ok (.bool false) ∧
+    Spec.evalTop (F := Int) d0 (.oper "=" pA (.str "t")) (.node 0) = .ok (.bool true) := by
+  obtain ⟨o, hb⟩ : ∃ o, build (fun _ => true) 100 true false eF2 {} {} = .ok o :=
+    exists_ok (by decide +kernel)
+  obtain ⟨t, h1, h2⟩ := Theorems.C07.C07_main_filtered_paths_doc_independent (F := Int) wf_d0 {} rfl
+    hashInj_d0 (.node 0) (by decide) (fun _ => true) 100 eF2 eF2_xexp2 {} o hb
+  have e : Spec.evalTop (F := Int) d0 eF2 (.node 0) = .ok (.bool false) := by decide +kernel
+  rw [e] at h2; cases h2
+  exact ⟨o, hb, h1, by decide +kernel⟩
+
+/-- the embedding old → new on the instance of `C07_main` -/
+example : XExp2 .bool e1 := Theorems.C07.C07_filtered_paths_embeds_main e1_xexp
+
+end XPathV.Theorems.NonVacuity.C07
+
+section AxiomAuditFilteredPaths
+open XPathV.Theorems.NonVacuity.C07
+end AxiomAuditFilteredPaths
